@@ -35,6 +35,7 @@ type C20Reg struct {
 type C20Pub struct {
 	ID      int `json:"id"`
 	CtxKind int `json:"ctx"` // 0 Publish, 1 live cancellable, 2 already cancelled
+	Bad     int `json:"bad,omitempty"` // >0: an event of another type that has no JSON encoding (no append attempt, so no persist pair)
 }
 
 type C20Scenario struct {
@@ -77,7 +78,11 @@ func genC20(rt *rapid.T) core.Scenario {
 		var l []C20Pub
 		for i := 0; i < k; i++ {
 			id++
-			l = append(l, C20Pub{ID: id*2 + rapid.IntRange(0, 1).Draw(rt, "parity"), CtxKind: rapid.SampledFrom([]int{0, 1, 1, 2}).Draw(rt, "ctx")})
+			pb := C20Pub{ID: id*2 + rapid.IntRange(0, 1).Draw(rt, "parity"), CtxKind: rapid.SampledFrom([]int{0, 1, 1, 2}).Draw(rt, "ctx")}
+			if rapid.IntRange(0, 7).Draw(rt, "unencodable") == 7 {
+				pb.Bad = rapid.IntRange(1, 3).Draw(rt, "badKind")
+			}
+			l = append(l, pb)
 			total++
 		}
 		sc.Pubs = append(sc.Pubs, l)
@@ -280,7 +285,18 @@ func (sc *C20Scenario) Execute(t *testing.T) *core.Outcome {
 				if p == k {
 					iv.Panicked = true
 					out.Fault("handler-panic")
-					panic(fmt.Sprintf("handler %d panics", ri))
+					switch (ri + k) % 5 { // panic values of every kind: string, error, int, struct, slice
+					case 0:
+						panic(fmt.Sprintf("handler %d panics", ri))
+					case 1:
+						panic(fmt.Errorf("handler %d fails", ri))
+					case 2:
+						panic(42 + ri)
+					case 3:
+						panic(customPanic{ri})
+					default:
+						panic([]int{ri, k})
+					}
 				}
 			}
 		}
@@ -308,6 +324,14 @@ func (sc *C20Scenario) Execute(t *testing.T) *core.Outcome {
 						}
 					}
 					rec.Add("pub", p.ID, p.CtxKind, "")
+					if p.Bad > 0 {
+						if ctx == nil {
+							ctx = context.Background()
+						}
+						eventbus.PublishContext(w.Bus, ctx, mkUnencodable(p.ID, p.Bad))
+						rec.Add("pub-ret", p.ID, 0, "")
+						continue
+					}
 					ops.Pub(w, ctx, p.ID)
 					rec.Add("pub-ret", p.ID, 0, "")
 				}
